@@ -126,6 +126,8 @@ func runC03(ctx *Ctx) {
 	for i := 0; i < ctx.N(2000, 40000); i++ {
 		c03WildPair(ctx)
 	}
+	// 5b. d03: pools inside the proved frontier, hypothesis predicates, large sets, unknown members
+	runC03D03(ctx)
 	// 6. the generic cty/set half
 	runC03SetBudget(ctx, ctx.Thorough)
 }
